@@ -172,15 +172,15 @@ MemPairs == { <<Sw("t1", "a0", 0), Lw("t2", "a1", 0)>>, <<Sw("t1", "a0", 0), Lb(
               <<Sw("t1", "a0", 0), Sw("t0", "a1", 0)>>, <<Sw("t1", "a0", 0), Sb("t0", "a1", 1)>>, <<Sb("t1", "a0", 1), Sw("t0", "a1", 0)>>,
               <<Sh("t1", "a0", 0), Sh("t0", "a1", 0)>> }
 Fillers == { Nop, Addi("t3", "t3", 1), Li("t3", 4) }
-(* busy: an older store miss to another line keeps the write path busy while the pair executes *)
+(* busy: 1 or 2 older store misses to other lines keep the write path busy (and its queue full) while the pair executes *)
 MemDepCases == { <<pr, d, f, warm, busy>> : pr \in MemPairs, d \in 1 .. (IF Size = "large" THEN 4 ELSE 3), f \in Fillers,
-                                          warm \in BOOLEAN, busy \in BOOLEAN }
+                                          warm \in BOOLEAN, busy \in 0 .. 2 }
 MemDepCase(x) ==
   LET pr == x[1] d == x[2]
       \* warm: the line is loaded first and both address registers are made to depend on that load,
       \* so that the pair executes once the line is resident
       pro == IF x[4] THEN <<Lw("t3", "a0", 8), I("andi", "t3", "t3", "zero", 0, 0), AddI("a0", "a0", "t3"), AddI("a1", "a1", "t3")>> ELSE <<>>
-      bz == IF x[5] THEN <<Sw("t0", "a1", 64)>> ELSE <<>>
+      bz == [j \in 1 .. x[5] |-> Sw("t0", "a1", 64 * j)]
       p == pro \o bz \o <<pr[1]>> \o [k \in 1 .. (d - 1) |-> x[3]] \o <<pr[2]>> \o <<Nop, Nop>>
       r0 == Regs0(64, 64, -2, 287454020, 0, 0)
       fin == Final(p, r0, "ramp", 256, 64)
